@@ -80,9 +80,31 @@ def make_case(unit):
                                 hide_some=False)
     if wmode == "float" and g.chance(0.5) and mode != "twobytwo":
         cases.add_total_subtotals(facets, transforms)
+    if g.chance(0.3):
+        # sort by the very statistics under test (their NaN cells are sort keys too): what is
+        # reported must not depend on having been used as a sort key
+        _sort_by_residuals(g, facets, transforms)
     spec = sim.CubeSpec(facets, g.weights(N, wmode), ())
     return {"template": template, "spec": sim.spec_to_dict(spec), "transforms": transforms,
             "ins": ins, "mode": mode}
+
+
+def _sort_by_residuals(g, facets, transforms):
+    from .. import transforms as T
+
+    o = sim.Oracle(sim.CubeSpec(facets, None, ()))
+    nd = o.ndim
+    for key, d, od in (("rows_dimension", nd - 2, nd - 1), ("columns_dimension", nd - 1, nd - 2)):
+        if not g.chance(0.6):
+            continue
+        oids, _ = T.transform_ids(o, od)
+        if not oids:
+            continue
+        order = {"type": "opposing_element", "measure": g.pick(["z_score", "p_value"]),
+                 "element_id": g.pick(oids)}
+        if g.chance(0.5):
+            order["direction"] = g.pick(["ascending", "descending"])
+        transforms.setdefault(key, {})["order"] = order
 
 
 def _degenerate(g, facets):
